@@ -284,6 +284,15 @@ func (f *Font) selectWidths() (float64, float64) {
 	} else if nominalWidth > maxWidth-107 {
 		nominalWidth = maxWidth - 107
 	}
+	// The difference between a width and nominalWidth is stored as a
+	// charstring number and must not exceed 32767 in absolute value.
+	if lo, hi := maxWidth-32767, minWidth+32767; lo <= hi {
+		if nominalWidth < lo {
+			nominalWidth = lo
+		} else if nominalWidth > hi {
+			nominalWidth = hi
+		}
+	}
 	return defaultWidth, nominalWidth
 }
 
